@@ -1156,10 +1156,12 @@ pub fn real_sym(i1: usize, n1: &str, i2: usize, n2: &str) -> String {
 }
 
 pub fn part_sym(out: &mut Out, _o: &Opts) {
-    let syms: Vec<(usize, &str)> = [0usize, 1, 2, 7].iter().flat_map(|&i| ["a", "b", "", "é'"].iter().map(move |&n| (i, n))).collect();
+    // small ids, and ids that coincide after truncation to 8, 16, 32 or 63 bits
+    let ids = [0usize, 1, 2, 7, 3 + (1 << 8), 3 + (1 << 16), 3 + (1 << 32), 7 + (1 << 32), 1 << 32, (1 << 63) + 2, usize::MAX - 1, usize::MAX];
+    let syms: Vec<(usize, &str)> = ids.iter().flat_map(|&i| ["a", "b", "", "é'"].iter().map(move |&n| (i, n))).collect();
     for &(i1, n1) in &syms {
         for &(i2, n2) in &syms {
-            let args = Sx::l(vec![Sx::n(i1), name_sx(n1), Sx::n(i2), name_sx(n2)]);
+            let args = Sx::l(vec![Sx::a(i1.to_string()), name_sx(n1), Sx::a(i2.to_string()), name_sx(n2)]);
             out.emit("sym", &args.show(), &real_sym(i1, n1, i2, n2));
         }
     }
